@@ -78,6 +78,12 @@ const (
 	// answer instead of success (stream stays up; outside the property's
 	// fault model, used to drive the error paths of the reconnect logic)
 	c18BehReject = "reject"
+	// okShut: like ok, but a shutdown notice follows the success message
+	// immediately and the subscribing goroutine is held (the harness holds
+	// the error switch's mutex, which the deferred Restore needs) until the
+	// client's reader has dealt with the notice: the notice is processed
+	// after the account's success and before its subscription call returns
+	c18BehOkShut = "okShut"
 )
 
 type c18Commit struct {
@@ -109,6 +115,8 @@ type c18Server struct {
 	pubs     []*btcec.PublicKey
 	activity *int64
 	midFault int32 // a stream was just failed right after its challenge
+	holdNext int32 // the handshake in progress is an okShut one: hold its goroutine
+	holdOn   *c18Stream
 	snapshot func(*auctioneerrpc.BatchSnapshotRequest) (*auctioneerrpc.BatchSnapshotResponse, error)
 }
 
@@ -225,6 +233,12 @@ func (s *c18Server) SubscribeBatchAuction(st auctioneerrpc.ChannelAuctioneer_Sub
 					if beh == c18BehErrMid {
 						atomic.StoreInt32(&s.midFault, 1)
 					}
+					if beh == c18BehOkShut {
+						s.mu.Lock()
+						s.holdOn = me
+						s.mu.Unlock()
+						atomic.StoreInt32(&s.holdNext, 1)
+					}
 					_ = st.Send(&auctioneerrpc.ServerAuctionMessage{Msg: &auctioneerrpc.ServerAuctionMessage_Challenge{
 						Challenge: &auctioneerrpc.ServerChallenge{Challenge: cm.challenge[:], CommitHash: cm.hash},
 					}})
@@ -261,7 +275,7 @@ func (s *c18Server) SubscribeBatchAuction(st auctioneerrpc.ChannelAuctioneer_Sub
 				cm.acct = id
 				me.subs = append(me.subs, id)
 				beh := cm.beh
-				if beh == c18BehOK {
+				if beh == c18BehOK || beh == c18BehOkShut {
 					me.success = append(me.success, id)
 				}
 				s.mu.Unlock()
@@ -269,6 +283,11 @@ func (s *c18Server) SubscribeBatchAuction(st auctioneerrpc.ChannelAuctioneer_Sub
 				case c18BehErrAC:
 					return end("injected-error", errC18Injected)
 				case c18BehShutAC:
+					_ = st.Send(c18Shutdown())
+				case c18BehOkShut:
+					_ = st.Send(&auctioneerrpc.ServerAuctionMessage{Msg: &auctioneerrpc.ServerAuctionMessage_Success{
+						Success: &auctioneerrpc.SubscribeSuccess{TraderKey: sub.TraderKey},
+					}})
 					_ = st.Send(c18Shutdown())
 				case c18BehReject:
 					_ = st.Send(&auctioneerrpc.ServerAuctionMessage{Msg: &auctioneerrpc.ServerAuctionMessage_Error{
@@ -547,6 +566,31 @@ func c18RunScenarioWith(scn c18Scn, uniq int, hooks *c18Hooks) *c18ScnResult {
 	// stream error has been read by the client and is in flight to the
 	// diverted channel (run holds the switch mutex) – then the send fails
 	signer.pre = func() {
+		if atomic.CompareAndSwapInt32(&srv.holdNext, 1, 0) {
+			// okShut: park the subscribing goroutine at its deferred
+			// Restore until the reader has processed the notice that
+			// follows the success (it closes the stream)
+			sw := client.VerifC18Switch()
+			sw.Lock()
+			srv.mu.Lock()
+			st := srv.holdOn
+			srv.mu.Unlock()
+			go func() {
+				deadline := time.Now().Add(1500 * time.Millisecond)
+				for time.Now().Before(deadline) {
+					srv.mu.Lock()
+					done := st != nil && st.ended != ""
+					srv.mu.Unlock()
+					if done {
+						break
+					}
+					time.Sleep(100 * time.Microsecond)
+				}
+				time.Sleep(300 * time.Microsecond)
+				touch()
+				sw.Unlock()
+			}()
+		}
 		if atomic.CompareAndSwapInt32(&srv.midFault, 1, 0) {
 			deadline := time.Now().Add(2 * time.Second)
 			for !client.VerifC18Switch().VerifC18Locked() && time.Now().Before(deadline) {
@@ -1114,6 +1158,9 @@ func c18GenScenario(r *Run) c18Scn {
 				x := behs[r.Rng.Intn(len(behs))]
 				if allowReject && r.Rng.Intn(5) == 0 {
 					x = c18BehReject
+				}
+				if allowReject && r.Rng.Intn(6) == 0 {
+					x = c18BehOkShut
 				}
 				b = append(b, x)
 			}
